@@ -199,6 +199,36 @@ func PackCases(seed int64, nEnum int, tmpls []Tmpl) []*Case {
 			entries = append(entries, name)
 			wfOf[name] = true
 		}
+		// a label bound again inside a predicate whose body then fails (or matches): the predicate has a scope of its own
+		for pi, e := range []*Node{
+			act(p.n(KSeq, lab("x", la()), p.n(KNot, p.n(KSeq, lab("x", lb()), p.lit("c", false))), lab("y", lb()))),
+			act(p.n(KSeq, lab("x", la()), p.n(KAnd, lab("x", lb())), lab("y", lb()))),
+			act(p.n(KSeq, lab("x", la()), p.n(KNot, p.n(KSeq, lab("y", lb()), p.lit("c", false))), lab("z", lb()))),
+			act(p.n(KSeq, lab("x", la()), p.n(KOpt, p.n(KSeq, lab("x", lb()), p.lit("c", false))), lab("y", p.n(KOpt, lb())))),
+		} {
+			name := fmt.Sprintf("Q%d", pi)
+			rules = append(rules, &Rule{Name: name, Expr: e})
+			entries = append(entries, name)
+			wfOf[name] = true
+		}
+		// classes and literals under the i flag with runes that lower-case although they are not upper-case letters
+		// (title case, Roman numerals, circled capitals), ranges with such ends, inverted
+		ownInputs := map[string][][]byte{}
+		foldIn := [][]byte{[]byte("ǅ"), []byte("ǆ"), []byte("Ǆ"), []byte("Ⓐ"), []byte("ⓐ"), []byte("Ⅷ"), []byte("ⅷ"), []byte("x"), []byte("X"), []byte("K"), []byte("k"), {}}
+		for ki, raw := range []string{"[ǅx]i", "[Ⓐ-Ⓩ]i", "[^Ⅷ]i", "[Ⅰ-Ⅿ]i", "[xǅ-ǆ]i", "[ǅx]", "[^Ⓐ-Ⓩ]i"} {
+			name := fmt.Sprintf("K%d", ki)
+			rules = append(rules, &Rule{Name: name, Expr: p.cls(raw)})
+			entries = append(entries, name)
+			wfOf[name] = true
+			ownInputs[name] = foldIn
+		}
+		for ki, l := range []string{"ǅ", "Ⅷx", "ⒶⒷ"} {
+			name := fmt.Sprintf("KL%d", ki)
+			rules = append(rules, &Rule{Name: name, Expr: p.lit(l, true)})
+			entries = append(entries, name)
+			wfOf[name] = true
+			ownInputs[name] = append([][]byte{[]byte("ǆ"), []byte("ⅷx"), []byte("ⅷX"), []byte("ⓐⓑ"), []byte("Ⓐⓑ")}, foldIn...)
+		}
 		exprs := EnumExprs(3)
 		stride := 1
 		if nEnum > 0 && nEnum < len(exprs) {
@@ -252,7 +282,11 @@ func PackCases(seed int64, nEnum int, tmpls []Tmpl) []*Case {
 			}
 			k := 0
 			for _, en := range part {
-				for _, in := range inputs {
+				ins := inputs
+				if own, ok := ownInputs[en]; ok {
+					ins = own
+				}
+				for _, in := range ins {
 					o := Opts{Recover: true, Entry: en}
 					if !wfOf[en] {
 						o.MaxExpr = 200 // a repetition of something that can match the empty string: runs under a budget
